@@ -226,6 +226,7 @@ def gen_case(rng, row, draw, thorough=False):
             c["cert"] = {"kind": "vx"}
             c["add_hash"] = rng.random() < 0.7
             c["just_header"] = rng.random() < 0.2
+    c["cfg_rt"] = draw == 0 and c.get("sub", 0) in (0, 1)
     return c
 
 
@@ -602,6 +603,18 @@ def eval_case(case, row):
         p.cert_block.signature_provider = obj.cert_block.signature_provider
     if case.get("just_header"):
         return obs, fails  # a header-only export does not contain the application: nothing to re-export
+    if case.get("cfg_rt") and not _has(mixins, "BcaTable"):
+        kf = None
+        if "cert" in case:
+            ct = case["cert"]
+            kf = RSA_VARIANTS[ct["id"]][3] if ct["kind"] == "v1" else \
+                KC_ECC / (f"ec_pk_secp{ct['isk']}r1_sign_cert.pem" if ct["isk"] else f"ec_pk_secp{ct['curve']}r1_cert{ct['used']}.pem")
+        # (the parsed object is used before its own re-export changes nothing observable: create_config only reads)
+        cb = bytes.fromhex(obs["cert"]) if "cert" in case and case["cert"]["kind"] == "v21" and obs.get("cert") else None
+        cr = config_roundtrip(case, row, p, e, sr, ir, kf, cb)
+        obs["cfg_rt"] = "ok" if cr is None else cr[0]
+        if cr is not None:
+            fail(cr[0], cr[1], cr[2], tag="cfg" + ("/ambiguous-class" if type(p).__name__ != cn else ""))
     r = pyres(p.export)
     if r[0] != "ok":
         obs["reexport"] = r[0]
@@ -616,6 +629,48 @@ def eval_case(case, row):
             fail("re-export of the parsed image differs outside the signature field", {"len": len(e2), "first_diff": d},
                  {"len": len(e)}, tag="ambiguous-class" if type(p).__name__ != cn else None)
     return obs, fails
+
+
+def config_roundtrip(case, row, p, e, sr, ir, key_file, cert_bin=None):
+    """create_config -> load_from_config -> export of a parsed image (what `nxpimage mbi parse` + `nxpimage mbi export` do).
+    Returns a failure description or None.  Only the secrets the image cannot carry are put back into the configuration."""
+    import shutil
+    import tempfile
+    from spsdk.image.mbi import mbi as M
+    out = tempfile.mkdtemp(prefix="c01cfg-", dir=os.environ.get("VERIF_SCRATCH"))
+    try:
+        r = pyres(p.create_config, out)
+        if r[0] != "ok":
+            return ("create_config of a parsed image raised", r, None)
+        cfg = dict(r[1])
+        if "signPrivateKey" in cfg:
+            cfg["signPrivateKey"] = str(key_file)
+        if "outputImageEncryptionKeyFile" in cfg:
+            cfg["outputImageEncryptionKeyFile"] = case.get("hkey")
+        if cert_bin is not None:
+            # a v2.1 certificate block carries only the hashes of the other root keys: its YAML cannot name them again
+            # (certificate block configuration is property C03); hand the block itself back as a binary
+            Path(out, "cert_block.bin").write_bytes(cert_bin)
+            cfg["certBlock"] = "cert_block.bin"
+        r = pyres(M.get_mbi_class, cfg)
+        if r[0] != "ok":
+            return ("configuration created from a parsed image does not select a class", r, None)
+        m2 = r[1]()
+        r = pyres(m2.load_from_config, cfg, [out])
+        if r[0] != "ok":
+            return ("configuration created from a parsed image does not load", r, {k: v for k, v in cfg.items() if k != "inputImageFile"})
+        r = pyres(m2.export)
+        if r[0] != "ok":
+            return ("image loaded from the configuration of a parsed image does not export", r, None)
+        e3 = bytes(r[1])
+        a, b = mask(e, sr, ir), mask(e3, sr, ir) if len(e3) == len(e) else e3
+        if a != b:
+            d = next((i for i in range(min(len(a), len(b))) if a[i] != b[i]), min(len(a), len(b)))
+            return ("create_config -> load_from_config -> export differs from the original image outside the signature field",
+                    {"len": len(e3), "first_diff": d}, {"len": len(e)})
+        return None
+    finally:
+        shutil.rmtree(out, ignore_errors=True)
 
 
 def _short(h):
